@@ -233,8 +233,11 @@ def r3(ctx, prog):
             ok = rhs is not None and (g.cv(rhs) == 0 or rl.field_is(g, rhs, "is_zero_init"))
             ctx.check(R, ok, g.where(a), "free_is_zero = %s" % g.text(rhs), key="C04.R3:fiz:%s" % g.name)
         for a, l, rhs, op in g.field_stores("is_zero_init"):
-            ok = rhs is not None and (g.cv(rhs) == 0 or g.mentions_field(rhs, "initially_zero") or g.mentions_field(rhs, "is_zero"))
-            ctx.check(R, ok, g.where(a), "is_zero_init = %s" % g.text(rhs), key="C04.R3:izi:%s" % g.name)
+            stale = rhs is not None and g.mentions_field(rhs, "memid") and any(g.nodes[x]["k"] == "MemberExpr" and g.nodes[x]["arrow"] and g.nodes[x]["fld"] == "memid" for x in g.walk(rhs))
+            ok = rhs is not None and g.cv(rhs) == 0
+            ctx.check(R, ok, g.where(a), "is_zero_init = %s%s" % (g.text(rhs), " — the segment's memid is written once when the segment is obtained and never updated when its slices are recycled, so a page "
+                      "carved from reused slices would be treated as zero" if stale else ("" if ok else " — only the constant false is a reviewed source (nothing in this tree tracks per-span freshness)")),
+                      key="C04.R3:izi:%s" % g.name)
     # any other way a block enters page->free (free-list extension) initialises from is_zero_init
     ctx.floor(R, 6)
 
@@ -281,6 +284,12 @@ def r4(ctx, prog):
         cfg = f.cfg
         zp = [f.param_id(k) for k in bool_params(f)]
         olds = [dd["d"] for _, dd in rl.var_init_from(f, lambda j: rl.is_call(f, j, ("_mi_usable_size", "mi_usable_size")))]
+        if not olds:
+            import C05
+            try:
+                olds = [C05.anchors(f)[2]]
+            except AnalysisBroken:
+                olds = []
         news = [dd for _, dd in rl.var_init_from(f, lambda j: rl.is_call(f, j) and (f.nodes[j].get("callee") or "").startswith("mi_heap_malloc"))]
         if not zp or not olds or not news:
             ctx.broke("C04.R4: anchors (zero parameter / old usable size / new block) not found in %s" % fname)
